@@ -186,9 +186,9 @@ func (c *ctx) checkReset(info *spec.EMsg, obj *TV, st *GV, path string, fails *[
 		*sigs = append(*sigs, DescribeField(f))
 	}
 	// groups
-	viaAll := map[string]bool{}   // via head -> all children null/unknown
+	viaAll := map[string]bool{}    // via head -> all children null/unknown
 	viaCustom := map[string]bool{} // via head -> a custom-type field is promoted from it
-	groupAll := map[string]bool{} // oneof group -> all branches null/unknown
+	groupAll := map[string]bool{}  // oneof group -> all branches null/unknown
 	for _, f := range info.Fields {
 		a, ok := obj.Attr(f.Attr)
 		nu := ok && isNU(a)
@@ -606,6 +606,23 @@ func recipeMalformed(c *ctx) {
 			}
 			c.Oracle("C06", id, ok, "from-diags", what)
 		}
+		// the same attribute damaged in two different ways in two elements of one list or map
+		if twin, tc := CorruptTwin(r.Fork(7), t); twin != nil {
+			idt, ft := c.From("malformed-from", twin, c.zero())
+			if ft.Panic != "" {
+				c.Oracle("C06", idt, false, "panic", fmt.Sprintf("CopyFrom panicked after %v: %s", tc, ft.Panic))
+			} else {
+				full, short := dset{}, dset{}
+				expectedReadDiags(c.info, twin, full, short)
+				got := fullSet(ft.Diags)
+				okt := dsetStr(got) == dsetStr(full)
+				whatt := ""
+				if !okt {
+					whatt = fmt.Sprintf("after %v: diagnostics %s, expected %s", tc, dsetStr(got), dsetStr(full))
+				}
+				c.Oracle("C06", idt, okt, "from-diags-twin", whatt)
+			}
+		}
 		// CopyTo with attribute types removed
 		v := c.p.b.GenGo(c.rt, r.Fork(4), MFull, 0)
 		if i%2 == 1 {
@@ -1004,6 +1021,22 @@ func (c *ctx) follow(info *spec.EMsg, st *GV, got, ref *TV, path string, fails *
 			*sigs = append(*sigs, DescribeField(f))
 		}
 		v, state := FieldOf(f, st)
+		if state == fsViaNil && f.Oneof == "" {
+			// promoted from a nullable embedded message that is nil in the new source: the message's
+			// attributes are this object's, and they become null as in a copy into an empty object
+			// (a list or map is then like a nil one: no elements; its null flag is as sticky as any list's)
+			switch f.Shape {
+			case "list", "objlist", "map", "objmap":
+				if len(a.Elems) != 0 {
+					bad(fmt.Sprintf("embedded message is nil in the source but %d elements are kept", len(a.Elems)))
+				}
+			default:
+				if a.Null != e.Null {
+					bad(fmt.Sprintf("embedded message is nil in the source: null=%v, in a fresh copy null=%v", a.Null, e.Null))
+				}
+			}
+			continue
+		}
 		if state != fsOK {
 			continue
 		}
@@ -1079,9 +1112,6 @@ func recipeHistory(c *ctx) {
 		if i%2 == 0 {
 			v = c.p.b.GenGo(c.rt, r.Fork(0), MFull, 0)
 		}
-		if nilEmbeddedParent(c.info, v) {
-			continue // C03's business
-		}
 		_, tr := c.To("history-first", v, EmptyOf(c.objTy))
 		if tr.Panic != "" || len(tr.Diags) > 0 {
 			continue
@@ -1097,9 +1127,6 @@ func recipeHistory(c *ctx) {
 				nv = mixGV(r, v, c.zero())
 			default:
 				nv = mixGV(r, v, c.p.b.GenGo(c.rt, r.Fork(uint64(100+s)), MRand, 0))
-			}
-			if nilEmbeddedParent(c.info, nv) {
-				break
 			}
 			id, t2 := c.To("history-step", nv, cur)
 			if t2.Panic != "" || len(t2.Diags) > 0 {
